@@ -44,12 +44,20 @@ class Visitors:
     def resolve(self, meth: str) -> T.Optional[T.Tuple[T.Any, str, ast.FunctionDef]]:
         def find_class(n: str) -> T.Optional[ast.ClassDef]:
             return self.pm.cls(n) if self.pm.has_cls(n) else self.vm.cls(n) if self.vm.has_cls(n) else None
+        def find_func(n: str) -> T.Optional[ast.FunctionDef]:
+            for m in (self.pm, self.vm):
+                if m.has_func(n):
+                    return m.func(n)      # type: ignore[return-value]
+            return None
         for mod, c in self.chain:
             if c.name not in self._callables:
-                self._callables[c.name] = class_callables(c, find_class)
+                self._callables[c.name] = class_callables(c, find_class, 0, find_func)
             st = self._callables[c.name].get(meth)
             if st is not None:
                 return mod, f'{c.name}.{meth}', st
+            if meth in self._callables[c.name].unread:
+                b = next(x for x in c.body if isinstance(x, ast.Assign) and any(isinstance(t, ast.Name) and t.id == meth for t in x.targets))
+                raise Undecided(f'{c.name}.{meth} is bound at class level to `{short(b.value, 80)}`, a shape that is not read as a method')
         return None
 
     def resolve_visit(self, cls: str) -> T.Optional[T.Tuple[T.Any, str, ast.FunctionDef, T.List[str]]]:
@@ -95,6 +103,13 @@ def constructed_classes(model: NodeModel) -> T.Set[str]:
             elif isinstance(c.func, ast.Attribute) and c.args and isinstance(c.args[0], ast.Name) and c.args[0].id in model.classes \
                     and attr_chain(c.func) and attr_chain(c.func).startswith('self.'):  # type: ignore[union-attr]
                 out.add(c.args[0].id)
+    # a class selected from a module-level constant table that a tree builder looks up (`self.create_node(TABLE[k], ...)`, also through
+    # a record field or an unpacked row): every class named in the rows of that table counts as built
+    for sub in (x for sc in scopes for x in ast.walk(sc)):
+        if isinstance(sub, ast.Subscript) and isinstance(sub.value, ast.Name) and isinstance(sub.ctx, ast.Load) and model.mod.has_assign(sub.value.id):
+            tv = model.mod.assign_value(sub.value.id)
+            if isinstance(tv, ast.Dict):
+                out |= {n.id for v in tv.values for n in ast.walk(v) if isinstance(n, ast.Name) and n.id in model.classes}
     return out
 
 
